@@ -43,7 +43,7 @@ def unwrap(v):
     return v
 
 
-def norm(v, node, f=None):
+def norm(v, node, f=None, strict=True):
     """Library value -> model value form, guided by the AST (never probes attributes blindly:
     Pointer.__getattr__ dereferences)."""
     v = unwrap(v)
@@ -74,12 +74,14 @@ def norm(v, node, f=None):
         return None
     if k == "enum":
         if not isinstance(v, _enum.Enum):
+            if not strict and isinstance(v, int) and not isinstance(v, bool):
+                return int(v)  # a constructed value may hold plain integers in enum arrays
             raise NormError(f"enum member expected, got {type(v).__name__}")
         if type(v).__name__ != (node["name"] or ""):
             raise NormError(f"enum class {type(v).__name__} != {node['name']}")
         return int(v.value)
     if k == "ptr":
-        if not isinstance(v, Pointer):
+        if not isinstance(v, int) or isinstance(v, (_enum.Enum, bool)):
             raise NormError(f"pointer expected, got {type(v).__name__}")
         return int(v)
     if k == "array":
@@ -94,7 +96,7 @@ def norm(v, node, f=None):
             return str.__str__(v)
         if not isinstance(v, list):
             raise NormError(f"list expected, got {type(v).__name__}")
-        return [norm(e, node["elem"]) for e in v]
+        return [norm(e, node["elem"], None, strict) for e in v]
     if k == "struct":
         if not isinstance(v, Structure):
             raise NormError(f"structure expected, got {type(v).__name__}")
@@ -104,7 +106,7 @@ def norm(v, node, f=None):
         out = {}
         for i, (nf, lfi) in enumerate(zip(node["fields"], lf)):
             key = nf["name"] if nf["name"] is not None else f"#{i}"
-            out[key] = norm(getattr(v, lfi._name), nf["t"], nf)
+            out[key] = norm(getattr(v, lfi._name), nf["t"], nf, strict)
         return out
     raise ValueError(k)
 
@@ -129,6 +131,8 @@ def build(libtype, node, v, f=None, enum_members=True):
         if k == "enum":
             return libtype(v)
         return v
+    if enum_members == "raw" and k == "array":
+        pass
     if k in ("int", "leb", "float", "ptr"):
         return v
     if k in ("char", "wchar"):
@@ -136,21 +140,23 @@ def build(libtype, node, v, f=None, enum_members=True):
     if k == "void":
         return None
     if k == "enum":
-        return libtype(v)
+        return v if enum_members == "raw" else libtype(v)
     if k == "array":
         ek = node["elem"]["k"]
         if ek in ("char", "wchar"):
             return v
         et = libtype.type
-        return [build(et, node["elem"], e, enum_members=enum_members) if (ek != "enum" or enum_members) else e
-                for e in v]
+        if ek == "enum" and enum_members in (False, "raw"):
+            return list(v)
+        return [build(et, node["elem"], e, enum_members=enum_members) for e in v]
     if k == "struct":
         lf = libtype.__fields__
         kw = {}
         if node["union"]:
             via = v.get("$via")
             if via is None:
-                raise KeyError("union value without $via")
+                nf0 = node["fields"][0]
+                via = nf0["name"] if nf0["name"] is not None else "#0"
             for i, (nf, lfi) in enumerate(zip(node["fields"], lf)):
                 key = nf["name"] if nf["name"] is not None else f"#{i}"
                 if key == via:
